@@ -1,5 +1,6 @@
 import ScVerif.C14.Spell
 import ScVerif.C14.PropsKeyed
+import ScVerif.C14.KeyedHist
 /-!
 # C14 — keyed families behind an id interceptor: one register per item, whatever the spelling
 
@@ -115,6 +116,39 @@ theorem C14_spelled_delete_ends_streams (C : SCfg S V Mask U) (s : KSrv S V Mask
   · rw [sstep_refines]; simp only [KReq.mapKey, ← hab]; exact hk.2.2.1 n u
   · exact hk.2.2.2 i st hi (hkey.trans hab.symm)
 
+/-- **C14_keyed_stream_history.** The WHOLE history of a single-item stream, for any session that does not cancel it:
+the stream is the fold, over the stream as it was, of the events of ITS item in session order - each successful Update
+or Create of the item is one `push` (one message `(view mask v, the Pull request's name)` unless suppressed by the
+equivalence or the stream has ended), a successful Delete ends it - and nothing else ever touches it. -/
+theorem C14_keyed_stream_history {K : Type} [DecidableEq K] (C : KCfg V Mask U) (s : KSrv K V Mask)
+    (rs : List (KReq K Mask U)) (i : Nat) (st : KStream K V Mask) (hi : s.streams[i]? = some st)
+    (hc : ∀ r, r ∈ rs → r.cancels i = false) :
+    (krun C s rs).streams[i]? = some { key := st.key, s := (kevents C st.key s rs).foldl (applyEv C) st.s } :=
+  krun_stream C rs s i st hi hc
+
+/-- **C14_spelled_stream_history.** The same behind an id interceptor, end to end: the item exists with value `cur`, a
+Pull names it `b`, then ANY session (every request spelling its id as it likes) that does not cancel the stream. The
+stream is the fold, over the opened stream (seed unless updates_only), of the events of the requests whose id has the
+image `icpt b` - whatever their spelling - and of no others. -/
+theorem C14_spelled_stream_history (C : SCfg S V Mask U) (s : KSrv S V Mask) (b : S) (cur : V)
+    (hex : s.regs (C.icpt b) = some cur) (n : String) (m : Option Mask) (uo : Bool)
+    (rs : List (KReq S Mask U)) (hc : ∀ r, r ∈ rs → r.cancels s.streams.length = false) :
+    let s1 := (sstep C s (.pull b n m uo)).1
+    ((srun C s1 rs).streams[s.streams.length]?).map (·.s) =
+      some ((kevents C.toKCfg (C.icpt b) s1 (rs.map (KReq.mapKey C.icpt))).foldl (applyEv C.toKCfg)
+        (openStream C.toCfg cur n m uo)) := by
+  intro s1
+  have hopen : s1.streams[s.streams.length]? = some { key := C.icpt b, s := openStream C.toCfg cur n m uo } := by
+    simp [s1, sstep, pullStream, hex]
+  rw [srun_refines]
+  have hc' : ∀ r, r ∈ rs.map (KReq.mapKey C.icpt) → r.cancels s.streams.length = false := by
+    intro r hr
+    obtain ⟨r0, hr0, rfl⟩ := List.mem_map.mp hr
+    have := hc r0 hr0
+    cases r0 <;> simp_all [KReq.mapKey, KReq.cancels]
+  rw [krun_stream C.toKCfg _ s1 _ _ hopen hc']
+  rfl
+
 /-! ### Non-vacuity -/
 
 /-- ids are numbers, spelled modulo 10 (13 and 3 name one item) -/
@@ -125,6 +159,13 @@ example :
       [.create 13 10, .create 2 20, .pull 3 "a" none false, .pull 12 "b" none false, .update 23 "x" 5, .delete 32 false, .update 2 "x" 1]
     s.regs 3 = some 15 ∧ s.regs 13 = none ∧ s.regs 2 = none ∧
       s.streams.map (fun st => (st.key, st.s.out, st.s.live)) = [(3, [(10, "a"), (15, "a")], true), (2, [(20, "b")], false)] := by
+  decide
+
+/-- the history theorem on the session above: the stream opened under 3 carries the seed and the Update made under 23 -/
+example :
+    let s0 := srun exSCfg (⟨fun _ => none, []⟩ : KSrv Nat Nat Nat) [.create 13 10, .create 2 20]
+    (kevents exSCfg.toKCfg 3 (sstep exSCfg s0 (.pull 3 "a" none false)).1
+      ([.pull 12 "b" none false, .update 23 "x" 5, .delete 32 false, .update 2 "x" 1].map (KReq.mapKey exSCfg.icpt))) = [some 15] := by
   decide
 
 example : sinitOk exSCfg [(13, 10), (2, 20)] := by simp [sinitOk, exSCfg]
